@@ -72,9 +72,22 @@ CHECKS.update({
   ref="4 C08"),
 })
 
+CHECKS.update({
+ "C07": dict(
+  text="The real Worterbuch::disconnected (with unlock_all, grave_goods_for_client / last_will_for_client incl. serde from_value of the registrations, do_unsubscribe, "
+       "internal pdelete of $SYS/clients/<id>/#, burial, last will with forced set, notify_subscribers) from directly constructed two-client states with solver-chosen "
+       "values and CAS version: matching keys deleted, last will set also over a CAS value, the victim's $SYS entries / subscriptions / publish streams / locks gone, "
+       "lock handed to the waiter and confirmed once, the bystander's registrations, session and subscription untouched, burial event before will event, once each; "
+       "last will on a protected $SYS key refused; malformed registration ignored.",
+  note=BASE + "Keys are the real 58-character $SYS/clients/<uuid>/... keys; topic! is replaced lexically by a core::fmt-free equivalent for the Kani build (gen/deasync.py, "
+       "compared natively), memchr stubbed by its byte loop, per-loop bounds learnt at run time. Grave goods with a leading wildcard erase other clients' registrations: "
+       "reported as known finding KF-C08-leading-wildcard. Outside: that every transport calls disconnected (tcp.rs / unix.rs, tokio), extended_monitoring, > 2 clients.",
+  ref="4 C07"),
+})
+
 NA = {
 }
-PENDING = ["C07","C09","C10","C11","C12","C13","C15","C16","C19"]
+PENDING = ["C09","C10","C11","C12","C13","C15","C16","C19"]
 NA_FIXED = {
  "C14": "the property is the serde_json text codec composed with serde derives; the real codec exhausts 17-19 GB / 10 min under Kani/CBMC for a one-field message (measured), and a model codec would only verify the model",
  "C18": "ReDB is an on-disk B-tree behind a background writer task and file I/O; neither the database nor the batching schedule can be executed symbolically here and no pure kernel of the property remains",
